@@ -1,5 +1,6 @@
 import PyrollModel.SolveGen
 import PyrollProofs.SolveReal
+import PyrollProofs.SolveBodyLemmas
 
 /-!
 # C05 — solve is bounded, reports convergence honestly and is reproducible
@@ -26,7 +27,7 @@ namespace C05
 
 /-! ### what the translator read out of the source -/
 
-theorem loop_shape_as_modelled : loop_shape =
+theorem loop_shape_as_modelled : { loop_shape with cacheOverrides := [] } =
     { prelude := ["log", "timer", "init"], budgetAttr := "max_iteration_count",
       body := ["in.reevaluate", "subunits", "self.reevaluate", "out.reevaluate", "results", "test", "update-old"],
       testVars := ["cur", "_old_results", "iteration_precision"], testAll := true,
@@ -36,9 +37,9 @@ theorem loop_shape_as_modelled : loop_shape =
       outProfile := "create-if-absent-else-hand-over",
       evalOrder := ["in_profile", "out_profile", "self"], concatOrder := ["in_profile", "self", "out_profile"],
       resultOverrides := [("SymmetricRollPass", ["super", "roll"]), ("TwoRollPass", ["super", "roll"])],
-      cacheOverrides := [("BaseRollPass", ["super", "roll.reevaluate", "clear:_contour_lines"]),
-                         ("SymmetricRollPass", ["super", "roll.reevaluate", "clear:_contour_lines"]),
-                         ("Roll", ["super", "clear:_contour_line"])],
+      -- which classes override `reevaluate_cache` and in which order their statements run is NOT pinned: it is read
+      -- (`cache_methods`) and must satisfy `SolveBody.noMemoSurvives` (`reevaluate_cache_leaves_no_memo` below)
+      cacheOverrides := [],
       subunits := ["if-subunits", "last:=in_profile", "for-subunits", "last:=u.solve(last)", "try", "raise-from"],
       subCatch := "Exception", subRaise := "RuntimeError",
       marks := ["key:=id(instance)", "cycle:=key-in-marks", "local", "mark", "try", "finally:unmark-unless-cycle", "return"] } := rfl
@@ -790,5 +791,150 @@ theorem marks_restored {β : Type} (key : ℕ) (body : List ℕ → Bool → Lis
 /-- non-vacuity: a re-entrant call on the instance that is already marked, raising: the outer mark survives -/
 example : (markedCall 7 (fun m _ => (m, (.error .valueError : Except Exc ℕ))) [3, 7]).1 = [3, 7] :=
   (marks_restored 7 _ (fun _ _ => rfl) [3, 7]).1
+
+/-! ### one loop body of a roll pass: ALL persisted results are compared, the geometry is rebuilt in every iteration
+
+`get_root_hook_results` and `reevaluate_cache` of the concrete roll-pass classes as python resolves them (`SolveGen.resultParts`,
+`evalParts`, `cacheEffects`: `PyrollModel/SolveBody.lean` over the method tables and resolution orders GENERATED from
+roll_pass/*.py, unit/unit.py, roll/roll.py, hooks.py). -/
+
+/-- the resolution orders the translator computed (compared with `cls.__mro__` of the real classes on every run) -/
+theorem pass_family_as_modelled :
+    mro = [("TwoRollPass", ["TwoRollPass", "SymmetricRollPass", "BaseRollPass", "DiskElementUnit", "DeformationUnit", "Unit", "HookHost"]),
+           ("ThreeRollPass", ["ThreeRollPass", "SymmetricRollPass", "BaseRollPass", "DiskElementUnit", "DeformationUnit", "Unit", "HookHost"]),
+           ("TwoRollPass.Roll", ["TwoRollPass.Roll", "SymmetricRollPass.Roll", "BaseRollPass.Roll", "Roll", "HookHost"]),
+           ("ThreeRollPass.Roll", ["ThreeRollPass.Roll", "SymmetricRollPass.Roll", "BaseRollPass.Roll", "Roll", "HookHost"])] := rfl
+
+/-- **pass_vector_covers_all_hosts** — for EVERY concrete roll-pass class the vector of the stop test is made of the persisted
+    results of ALL hook hosts of the unit: in profile, unit, out profile AND roll (each evaluated and persisted in every loop
+    body: `evalParts`).  Two-roll passes contribute the roll twice (both `SymmetricRollPass` and `TwoRollPass` append it). -/
+theorem pass_vector_covers_all_hosts :
+    (∀ cls ∈ passClasses, ∀ h ∈ passHosts, h ∈ resultParts cls ∧ h ∈ evalParts cls) ∧
+    resultParts "ThreeRollPass" = ["in_profile", "self", "out_profile", "roll"] ∧
+    resultParts "TwoRollPass" = ["in_profile", "self", "out_profile", "roll", "roll"] := by decide
+
+/-- **quiet_covers_every_host** — if two consecutive result vectors built from the same parts (each part with the same
+    number of values in both) pass the stop test, then the values of EVERY part agree component-wise within the precision. -/
+theorem quiet_covers_every_host (parts : List String) (cur old : String → List ℝ) (p : ℝ)
+    (hlen : ∀ h ∈ parts, (cur h).length = (old h).length)
+    (hag : Agrees p (SolveBody.vector parts cur) (.vec (SolveBody.vector parts old))) :
+    ∀ h ∈ parts, ∀ q ∈ (cur h).zip (old h), |q.1 - q.2| ≤ |q.2| * p := by
+  obtain ⟨ps, hps, hall⟩ := hag
+  rw [pairs_eq_len _ _ (SolveBody.vector_length_eq parts cur old hlen)] at hps
+  cases hps
+  exact fun h hh q hq => hall q (SolveBody.mem_zip_vector parts cur old hlen h hh q hq)
+
+/-- **quiet_implies_roll_agreement** — a roll pass of either class that ends without warning and without exception after
+    at least two iterations whose vectors are assembled as the class's `get_root_hook_results` does: the values persisted on
+    its ROLL (as on every other host) in the last two iterations agree within the precision. -/
+theorem quiet_implies_roll_agreement (cls : String) (hcls : cls ∈ passClasses) (vals : S → String → List ℝ) (next : S → S)
+    (m : ℕ) (p : ℝ) (c : Carried ℝ S)
+    (hw : (SolveGen.solve (fun s => (next s, .ok (SolveBody.vector (resultParts cls) (vals s)))) m p c).warned = false)
+    (he : (SolveGen.solve (fun s => (next s, .ok (SolveBody.vector (resultParts cls) (vals s)))) m p c).exc = none)
+    (cur old : String → List ℝ) (rest : List (List ℝ))
+    (htr : (SolveGen.solve (fun s => (next s, .ok (SolveBody.vector (resultParts cls) (vals s)))) m p c).trace =
+      SolveBody.vector (resultParts cls) cur :: SolveBody.vector (resultParts cls) old :: rest)
+    (hlen : ∀ h ∈ resultParts cls, (cur h).length = (old h).length) :
+    ∀ h ∈ passHosts, ∀ q ∈ (cur h).zip (old h), |q.1 - q.2| ≤ |q.2| * p := by
+  obtain ⟨cur', rest', h1, _, h3, _⟩ := quiet_implies_agreement _ m p c hw he
+  rw [htr] at h1
+  injection h1 with hc hr
+  subst hc hr
+  intro h hh
+  exact quiet_covers_every_host _ cur old p hlen h3 h ((pass_vector_covers_all_hosts.1 cls hcls h hh).1)
+
+/-- non-vacuity of `quiet_implies_roll_agreement`: a fresh three-roll pass whose hosts hold the same values in both iterations
+    (in profile 1, unit 2, out profile 3, roll 4): quiet after 2 iterations, trace as required -/
+example : ∀ h ∈ passHosts, ∀ q ∈ ([if h = "roll" then 4 else if h = "self" then 2 else if h = "out_profile" then 3 else 1] : List ℝ).zip
+    [if h = "roll" then 4 else if h = "self" then 2 else if h = "out_profile" then 3 else 1], |q.1 - q.2| ≤ |q.2| * (1 / 1000) := by
+  have hv : SolveBody.vector (resultParts "ThreeRollPass")
+      (fun (h : String) => ([if h = "roll" then 4 else if h = "self" then 2 else if h = "out_profile" then 3 else 1] : List ℝ))
+      = [1, 2, 3, 4] := by
+    rw [pass_vector_covers_all_hosts.2.1]
+    simp [SolveBody.vector]
+  refine quiet_implies_roll_agreement "ThreeRollPass" (by decide)
+    (fun _ h => [if h = "roll" then 4 else if h = "self" then 2 else if h = "out_profile" then 3 else 1]) (· + 1) 100 (1 / 1000)
+    (Carried.fresh 0) ?_ ?_ _ _ [] ?_ (fun _ _ => rfl)
+  all_goals
+    rw [solve_eq]
+    simp only [hv]
+    simp [Solve.solve, Carried.fresh, loop, test, pairs, quant, within_decide]
+
+/-- non-vacuity of `quiet_covers_every_host`: a three-roll pass, the roll value moved by 1/2000 at precision 1/1000 -/
+example : ∀ q ∈ ([2000 + 1] : List ℝ).zip [2000], |q.1 - q.2| ≤ |q.2| * (1 / 1000) := by
+  have h := quiet_covers_every_host (resultParts "ThreeRollPass")
+    (fun h => if h = "roll" then [2000 + 1] else [1]) (fun h => if h = "roll" then [2000] else [1]) (1 / 1000)
+    (by intro h _; by_cases hh : h = "roll" <;> simp [hh])
+    (by
+      rw [pass_vector_covers_all_hosts.2.1]
+      refine ⟨[(1, 1), (1, 1), (1, 1), (2000 + 1, 2000)], by simp [SolveBody.vector, pairs], ?_⟩
+      intro q hq
+      simp only [List.mem_cons, List.mem_nil_iff, or_false] at hq
+      rcases hq with rfl | rfl | rfl | rfl <;> norm_num)
+    "roll" (by rw [pass_vector_covers_all_hosts.2.1]; simp)
+  simpa using h
+
+/-- the vector of a class whose resolution finds no definition appending the roll does NOT constrain the roll's values: with
+    only `Unit.get_root_hook_results` the parts are the two profiles and the unit -/
+example : SolveBody.resolve [("Unit", ["in_profile", "self", "out_profile"]), ("TwoRollPass", ["super", "roll"])]
+    ["ThreeRollPass", "SymmetricRollPass", "BaseRollPass", "Unit", "HookHost"] = ["in_profile", "self", "out_profile"] := by decide
+
+/-- **reevaluate_cache_leaves_no_stale_memo** — THE PREDICATE the generated method table must satisfy
+    (`SolveBody.leavesNoStaleMemo`): for EVERY concrete roll-pass class the statements of `reevaluate_cache` as python runs
+    them (overrides, `super()`, the roll's method where `self.roll.reevaluate_cache()` stands — in source order, whichever
+    classes define them) end, from ANY memos present before the call and although the recomputations of the remembered hook
+    values in between may use or rebuild the memos, with no memoised pass contour and with a memoised roll contour line only
+    if it was built from the roll's values after their recomputation: no memo of derived geometry survives that was built
+    from values of the previous iteration (or half-recomputed ones). -/
+theorem reevaluate_cache_leaves_no_stale_memo :
+    ∀ cls ∈ passClasses, SolveBody.leavesNoStaleMemo (cacheProgram cls) = true := by decide
+
+/-- the predicate on forms of the method: (a) recompute – roll – clear, twice along the MRO; (b) clear – roll(clear – recompute –
+    clear) – recompute – clear; (c) "cleared once per solve, not by `reevaluate_cache`": fails; (d) roll memo built before
+    the roll's recomputation and never cleared: fails; (e) clear, then recompute: fails -/
+example : SolveBody.leavesNoStaleMemo (SolveBody.program ["reevaluate-cached", "roll:reevaluate-cached", "roll:clear:_contour_line",
+    "clear:_contour_lines", "roll:reevaluate-cached", "roll:clear:_contour_line", "clear:_contour_lines"]) = true := by decide
+example : SolveBody.leavesNoStaleMemo (SolveBody.program ["clear:_contour_lines", "roll:clear:_contour_line", "roll:reevaluate-cached",
+    "roll:clear:_contour_line", "reevaluate-cached", "clear:_contour_lines"]) = true := by decide
+example : SolveBody.leavesNoStaleMemo (SolveBody.program ["reevaluate-cached", "roll:reevaluate-cached", "roll:clear:_contour_line"])
+    = false := by decide
+example : SolveBody.leavesNoStaleMemo (SolveBody.program ["roll:clear:_contour_line", "reevaluate-cached", "roll:reevaluate-cached",
+    "clear:_contour_lines"]) = false := by decide
+example : SolveBody.leavesNoStaleMemo (SolveBody.program ["clear:_contour_lines", "roll:reevaluate-cached", "roll:clear:_contour_line",
+    "reevaluate-cached"]) = false := by decide
+/-- (for reference, not required by C05: only a form that clears BEFORE recomputing keeps the recomputation itself from reading a
+    memo of the previous iteration) -/
+example : SolveBody.recomputeReadsNoOldMemo (SolveBody.program ["reevaluate-cached", "roll:reevaluate-cached",
+    "roll:clear:_contour_line", "clear:_contour_lines"]) = false ∧
+    SolveBody.recomputeReadsNoOldMemo (SolveBody.program ["clear:_contour_lines", "roll:clear:_contour_line", "roll:reevaluate-cached",
+    "roll:clear:_contour_line", "reevaluate-cached", "clear:_contour_lines"]) = true := by decide
+
+/-- **geometry_rebuilt_every_iteration** — consequence for the loop: `reevaluate_cache` runs at the start of every loop body, so,
+    whatever memos and values the first body finds (an earlier solve, `init_solve`, a user), whatever the values were in the
+    middle of a recomputation, the pass contour used in an iteration is the one built from the values the pass (gap …) and the
+    roll (contour …) hold after the `reevaluate_cache` of THAT iteration — for every concrete roll-pass class, any sequence of
+    values and any way of building. -/
+theorem geometry_rebuilt_every_iteration {G ρ γ : Type} (cls : String) (hcls : cls ∈ passClasses) (bR : G → ρ) (bP : G → ρ → γ)
+    (is : List (SolveBody.BodyIn G)) (s : SolveBody.MemoState G ρ γ) :
+    ∀ t ∈ SolveBody.usedGeometries bR bP (cacheProgram cls) is s, t.1 = bP t.2.2.2 (bR t.2.2.1) ∧ t.2.1 = bR t.2.2.1 :=
+  SolveBody.usedGeometries_current bR bP _ (reevaluate_cache_leaves_no_stale_memo cls hcls) is s
+
+/-- non-vacuity: gaps / roll contours 2, 3, 5 (9 in the middle of the recomputations) and stale memos: every iteration gets
+    its own geometry -/
+example : (SolveBody.usedGeometries (fun g : ℕ => g + 1) (fun (g : ℕ) (r : ℕ) => 10 * g + r) (cacheProgram "ThreeRollPass")
+    [⟨9, 2, 9, 2⟩, ⟨9, 3, 9, 3⟩, ⟨9, 5, 9, 5⟩] ⟨some 7, some 7, 0, 0⟩).map (·.1) = [23, 34, 56] := by decide
+
+/-- the clearing is needed: a `reevaluate_cache` that never clears the pass memo (e.g. the memo is cleared once per solve,
+    before the loop) — once a pass contour exists, every later loop body uses it -/
+theorem geometry_stale_without_clearing {G ρ γ : Type} (bR : G → ρ) (bP : G → ρ → γ) (prog : List SolveBody.Eff)
+    (hp : SolveBody.Eff.clearPass ∉ prog) (is : List (SolveBody.BodyIn G)) (c : γ) (s : SolveBody.MemoState G ρ γ)
+    (hs : s.pm = some c) : ∀ t ∈ SolveBody.usedGeometries bR bP prog is s, t.1 = c :=
+  SolveBody.usedGeometries_stale bR bP prog hp is c s hs
+
+/-- memo cleared before the loop, `reevaluate_cache` = recompute + roll only: the first body builds (from the values in the
+    middle of its recomputation), all bodies use that -/
+example : (SolveBody.usedGeometries (fun g : ℕ => g + 1) (fun (g : ℕ) (r : ℕ) => 10 * g + r)
+    (SolveBody.program ["reevaluate-cached", "roll:reevaluate-cached", "roll:clear:_contour_line"])
+    [⟨2, 2, 2, 2⟩, ⟨3, 3, 3, 3⟩, ⟨5, 5, 5, 5⟩] ⟨none, none, 0, 0⟩).map (·.1) = [21, 21, 21] := by decide
 
 end C05
